@@ -1223,6 +1223,8 @@ impl FseDecoder {
         // Build decompression table
         let config = FseConfig {
             table_log,
+            // the table is always 2^table_log entries whatever the encoder's max_table_size was
+            max_table_size: self.config.max_table_size.max(1usize << table_log),
             ..self.config.clone()
         };
         let table = FseTable::new(&frequencies, &config)?;
